@@ -26,7 +26,11 @@ class IrParseException(Exception):
 def tokenize(lines):
     # Create a regular expression for the lexing part:
     tok_spec = [
-        ("FLOAT", r"\-?\d+\.\d+"),
+        # All spellings that str(float) produces: 1.5, 1e+30, 1.5e-07, inf, nan
+        (
+            "FLOAT",
+            r"\-?(?:\d+\.\d+(?:e[\-+]?\d+)?|\d+e[\-+]?\d+|inf\b|nan\b)",
+        ),
         ("INT", r"\-?\d+"),
         ("STRING", r"'[^']*'"),
         ("ID", r"[A-Za-z][A-Za-z\d_]*"),
